@@ -18,6 +18,9 @@ struct C12;
 
 const GRID: usize = 64;
 
+/// translations applied to the off-centre families
+const OFFSETS: [f64; 2] = [134217728.0, 1.7e9];
+
 fn d2(a: &[f64], b: &[f64]) -> f64 {
     a.iter().zip(b).map(|(x, y)| (x - y) * (x - y)).sum()
 }
@@ -70,10 +73,35 @@ fn centroid_grid(dim: usize, side: usize) -> Vec<Vec<f64>> {
     }
 }
 
+/// translate every coordinate by the job's offset (0 when absent); offsets are integers so the
+/// lattice coordinates stay exact
+fn shifted(job: &Job, mut v: Vec<Vec<f64>>) -> Vec<Vec<f64>> {
+    let off = job.params.get("off").and_then(|x| x.as_f64()).unwrap_or(0.0);
+    if off != 0.0 {
+        for r in v.iter_mut() {
+            for x in r.iter_mut() {
+                *x += off;
+            }
+        }
+    }
+    v
+}
+
+/// Allowed deviation of the reported total distortion from exhaustive search: 1e-9 relative, plus the
+/// rounding no implementation working from per-cell sums can avoid — a cell mean carries an absolute
+/// error of about n*eps*max|x|, which enters the distortion as 2*sqrt(n*distortion)*delta. (This is
+/// linear in the offset; a squared-norm expansion loses eps*max|x|^2, far outside it.)
+fn dist_tol(pts: &[Vec<f64>], want: f64) -> f64 {
+    let n = pts.len() as f64;
+    let maxabs = pts.iter().flatten().fold(0.0f64, |m, x| m.max(x.abs()));
+    1e-9 * (1.0 + want) + 16.0 * f64::EPSILON * maxabs * n * (1.0 + (n * want).sqrt())
+}
+
 fn assignment_case(job: &Job) {
     let (n, dim, side, k) = (job.u("n"), job.u("dim"), job.u("side"), job.u("k"));
-    let pts = draw_points(job, n, dim, side);
-    let grid = centroid_grid(dim, side);
+    let pts = shifted(job, draw_points(job, n, dim, side));
+    let grid = shifted(job, centroid_grid(dim, side));
+    let off = job.params.get("off").and_then(|x| x.as_f64()).unwrap_or(0.0);
     // centroid multiset: non-decreasing index sequence
     let mut cents: Vec<Vec<f64>> = Vec::new();
     let mut lo = 0usize;
@@ -119,7 +147,7 @@ fn assignment_case(job: &Job) {
             }
         }
     }
-    if (r.distortion - want_dist).abs() > 1e-9 * (1.0 + want_dist) {
+    if (r.distortion - want_dist).abs() > dist_tol(&pts, want_dist) {
         mc::violation("bbd.clustering:distortion", format!("points {:?} centroids {:?}: distortion {} but exhaustive search gives {}", pts, cents, r.distortion, want_dist));
     }
     if ties {
@@ -128,8 +156,11 @@ fn assignment_case(job: &Job) {
     if cents.windows(2).any(|w| w[0] == w[1]) {
         mc::count("coincident_centroids");
     }
-    if cents.iter().any(|c| c.iter().any(|x| x.abs() >= 10.0)) {
+    if cents.iter().any(|c| c.iter().any(|x| (x - off).abs() >= 10.0)) {
         mc::count("far_centroids");
+    }
+    if off != 0.0 {
+        mc::count("assignment_off_centre");
     }
     if distinct_rows(&pts) < n {
         mc::count("duplicate_rows");
@@ -157,6 +188,7 @@ fn assignment_structured_case(job: &Job) {
     } else {
         structured_points(variant, n, dim)
     };
+    let pts = shifted(job, pts);
     // candidate centroids: some data rows, the mean, cell corners and a far point
     let mean: Vec<f64> = (0..dim).map(|c| pts.iter().map(|r| r[c]).sum::<f64>() / n as f64).collect();
     let lo: Vec<f64> = (0..dim).map(|c| pts.iter().map(|r| r[c]).fold(f64::INFINITY, f64::min)).collect();
@@ -199,10 +231,13 @@ fn assignment_structured_case(job: &Job) {
             }
         }
     }
-    if (r.distortion - want_dist).abs() > 1e-9 * (1.0 + want_dist) {
+    if (r.distortion - want_dist).abs() > dist_tol(&pts, want_dist) {
         mc::violation("bbd.clustering:structured:distortion", format!("{}: distortion {} but exhaustive search gives {}", ctx, r.distortion, want_dist));
     }
     mc::count("assignment_structured");
+    if job.params.get("off").is_some() {
+        mc::count("assignment_off_centre");
+    }
     mc::nontrivial();
     mc::outcome(mc::hash::mix(mc::hash::h_usizes(&r.membership), mc::hash::h_f64s_rounded(&[r.distortion], 10)));
     mc::describe(|| json!({"op": "bbd_clustering", "structured_variant": variant, "n": n, "dim": dim, "centroids": cents, "counts": r.counts, "distortion": r.distortion}));
@@ -292,7 +327,7 @@ fn queries_for(dim: usize, side: usize) -> Vec<Vec<f64>> {
 fn fit_case(job: &Job) {
     let (n, dim, side, k) = (job.u("n"), job.u("dim"), job.u("side"), job.u("k"));
     let edges = job.b("edges");
-    let pts = draw_points(job, n, dim, side);
+    let pts = shifted(job, draw_points(job, n, dim, side));
     if distinct_rows(&pts) < k {
         mc::count("fewer_than_k_distinct_rows");
         return;
@@ -329,9 +364,12 @@ fn fit_case(job: &Job) {
         }
         Ok(Ok(m)) => m,
     };
-    let q = queries_for(dim, side);
+    let q = shifted(job, queries_for(dim, side));
     if let Some((cents, y)) = check_model(&site, &pts, k, &model, &ctx, &q) {
         mc::nontrivial();
+        if job.params.get("off").is_some() {
+            mc::count("fits_off_centre");
+        }
         let mut flat: Vec<f64> = cents.iter().flatten().cloned().collect();
         flat.iter_mut().for_each(|x| *x = mc::hash::round_sig(*x, 12));
         mc::outcome(mc::hash::mix(mc::hash::h_f64s(&flat), mc::hash::h_usizes(&y)));
@@ -366,7 +404,7 @@ fn structured_points(variant: usize, n: usize, dim: usize) -> Vec<Vec<f64>> {
 
 fn structured_case(job: &Job) {
     let (n, dim, k, variant) = (job.u("n"), job.u("dim"), job.u("k"), job.u("variant"));
-    let pts = structured_points(variant, n, dim);
+    let pts = shifted(job, structured_points(variant, n, dim));
     if distinct_rows(&pts) < k {
         return;
     }
@@ -387,6 +425,9 @@ fn structured_case(job: &Job) {
             if let Some((cents, y)) = check_model(site, &pts, k, &model, &ctx, &q) {
                 mc::nontrivial();
                 mc::count("structured_fits");
+                if job.params.get("off").is_some() {
+                    mc::count("fits_off_centre");
+                }
                 let flat: Vec<f64> = cents.iter().flatten().map(|x| mc::hash::round_sig(*x, 12)).collect();
                 mc::outcome(mc::hash::mix(mc::hash::h_f64s(&flat), mc::hash::h_usizes(&y)));
                 mc::describe(|| json!({"op": "KMeans::fit", "structured_variant": variant, "n": n, "dim": dim, "k": k, "max_iter": max_iter, "draws": draws.iter().map(|d| d.2).collect::<Vec<_>>(), "centroids": cents}));
@@ -419,8 +460,29 @@ impl Harness for C12 {
                 }
             }
         }
+        // (a-off) the same assignment families translated far from the origin (Unix-timestamp and
+        // 2^27 scale): nearest-centroid decisions are translation invariant
+        for &off in &OFFSETS {
+            for k in [2usize, 3] {
+                for n in 1..=(if t { 4usize } else { 3 }) {
+                    jobs.push(Job::new(format!("assign-1d-n{}-k{}-off{}", n, k, off), json!({"kind": "assign", "n": n, "dim": 1, "side": 4, "k": k, "off": off})));
+                }
+                for n in 1..=(if t { 3usize } else { 2 }) {
+                    jobs.push(Job::new(format!("assign-2d-n{}-k{}-off{}", n, k, off), json!({"kind": "assign", "n": n, "dim": 2, "side": 3, "k": k, "off": off})));
+                }
+            }
+        }
         // (b) fit with every seeding schedule; large spaces are split into jobs by leading coordinates
         let mut fit_jobs: Vec<Job> = Vec::new();
+        for &off in &OFFSETS {
+            for (n, k) in [(3usize, 2usize), (4, 2), (3, 3), (4, 3)] {
+                if !t && n == 4 && k == 3 {
+                    continue;
+                }
+                fit_jobs.push(Job::new(format!("fit-1d-n{}-k{}-off{}", n, k, off), json!({"kind": "fit", "n": n, "dim": 1, "side": 4, "k": k, "edges": false, "off": off})));
+            }
+            fit_jobs.push(Job::new(format!("fit-2d-n3-k2-off{}", off), json!({"kind": "fit", "n": 3, "dim": 2, "side": 3, "k": 2, "edges": false, "off": off})));
+        }
         for k in [2usize, 3] {
             for n in k..=(if t { 5 } else { 4 }) {
                 let fix = if k == 3 { (n - 1).min(3) } else { (n - 2).min(2) };
@@ -450,6 +512,9 @@ impl Harness for C12 {
                 for k in [2usize, 3] {
                     for variant in 0..5usize {
                         jobs.push(Job::new(format!("assign-structured-v{}-n{}-d{}-k{}", variant, n, dim, k), json!({"kind": "assign-structured", "n": n, "dim": dim, "k": k, "variant": variant})));
+                        for &off in &OFFSETS {
+                            jobs.push(Job::new(format!("assign-structured-v{}-n{}-d{}-k{}-off{}", variant, n, dim, k, off), json!({"kind": "assign-structured", "n": n, "dim": dim, "k": k, "variant": variant, "off": off})));
+                        }
                     }
                 }
             }
@@ -464,6 +529,11 @@ impl Harness for C12 {
                             continue;
                         }
                         jobs.push(Job::new(format!("structured-v{}-n{}-d{}-k{}", variant, n, dim, k), json!({"kind": "structured", "n": n, "dim": dim, "k": k, "variant": variant})).with_dev_bound(if t { 2 } else { 1 }));
+                        if dim <= 3 && k <= 3 {
+                            for &off in &OFFSETS {
+                                jobs.push(Job::new(format!("structured-v{}-n{}-d{}-k{}-off{}", variant, n, dim, k, off), json!({"kind": "structured", "n": n, "dim": dim, "k": k, "variant": variant, "off": off})).with_dev_bound(if t { 2 } else { 1 }));
+                            }
+                        }
                     }
                 }
             }
@@ -474,9 +544,9 @@ impl Harness for C12 {
             jobs,
             budget_s: if t { 2400 } else { 40 },
             case_deadline_ms: 20_000,
-            floors: vec![("assignment_ties", 1000), ("coincident_centroids", 1000), ("far_centroids", 1000), ("duplicate_rows", 1000), ("fits_to_convergence", 1000), ("edge_schedules", 10), ("structured_fits", 100), ("final_empty_cluster", 10), ("assignment_structured", 1000)],
+            floors: vec![("assignment_ties", 1000), ("coincident_centroids", 1000), ("far_centroids", 1000), ("duplicate_rows", 1000), ("fits_to_convergence", 1000), ("edge_schedules", 10), ("structured_fits", 100), ("final_empty_cluster", 10), ("assignment_structured", 1000), ("assignment_off_centre", 10_000), ("fits_off_centre", 1000)],
             bounds: json!({
-                "assignment_step_structured": "5 structured families (incl. grid + off-corner group), n in {36,57} (up to 200 thorough), 1..3 dimensions, every centroid multiset of size 2,3 from 10 data-derived candidates", "assignment_step": "every point sequence n<=4 (5 thorough) on {0..3} and n<=3 (4) on the 3x3 lattice x every centroid multiset of size 2,3 from the half-step grid plus far points",
+                "off_centre": "assignment lattices (n<=3 1-D, n<=2 2-D; one more in thorough), the structured assignment families, 1-D/2-D all-schedule fits (n<=4) and the structured fits (dim<=3, k<=3) repeated with every coordinate translated by 2^27 and by 1.7e9 (exact in f64): same oracle, decisions are translation invariant", "assignment_step_structured": "5 structured families (incl. grid + off-corner group), n in {36,57} (up to 200 thorough), 1..3 dimensions, every centroid multiset of size 2,3 from 10 data-derived candidates", "assignment_step": "every point sequence n<=4 (5 thorough) on {0..3} and n<=3 (4) on the 3x3 lattice x every centroid multiset of size 2,3 from the half-step grid plus far points",
                 "fit": format!("every such sequence (quick tier, 2-D with k=3: those starting at the lattice origin) with >=k distinct rows x k in {{2,3}} x max_iter in {{1,2,100}} x every first-index draw x every cutoff draw on a {}-point grid (covers every index of positive weight); edge answers u=0 and u=1-2^-53 on all instances in the thorough tier, on two small families in the quick tier", GRID),
                 "structured": "4 families, n up to 40 (300 thorough), 1..6 dimensions, k up to 8, seeding schedules with at most 1 (2) non-default answers",
             }),
